@@ -539,7 +539,9 @@ fn gen_op(s: &mut Choices, kind: Kind, st: &mut St) -> Option<Op> {
                         2 => RqscId::Acpi(s.u64(), s.u32()),
                         3 => RqscId::Pci(s.u32()),
                         _ => {
-                            let l = 12 + small_len(s, 8, 300) as usize;
+                            // the crate frames any payload length consistently (the documented
+                            // content is id1[8] id2[4] data, shorter payloads are still self-describing)
+                            let l = if s.chance(60) { s.below(12) as usize } else { 12 + small_len(s, 8, 300) as usize };
                             RqscId::Vendor(s.u8(), gen_bytes(s, l))
                         }
                     },
